@@ -555,3 +555,10 @@ func joinInts(m map[int64]bool, names map[int64]string) string {
 	sort.Strings(s)
 	return strings.Join(s, ",")
 }
+
+func constantInt(v constant.Value) (int64, bool) {
+	if v == nil {
+		return 0, false
+	}
+	return constant.Int64Val(constant.ToInt(v))
+}
